@@ -10,4 +10,5 @@ def run(tier, seed):
     c.bounds = {'programs': '%d templates (see C04)' % len(ts), 'non_bindable': '12 target kinds x 10 binding positions (exhaustive)'}
     c.outside = ['programs outside the generated sample']
     c.run_family('scopes', ts, ('exit', 'stdout', 'stderr-empty', 'position', 'message', 'panic', 'hang'), scopes.role)
+    c.run_random(('exit', 'stdout', 'stderr-empty', 'panic', 'hang'))
     return c.finish()
